@@ -1,5 +1,6 @@
 """Comparison of picotool's token list with the reference lexer's (shared by C06, C07 and friends)."""
 from . import reflex
+from . import ambient
 
 
 def kind_of(tok):
@@ -27,7 +28,7 @@ def merge_labels(rt):
 
 def picotool_tokens(src, chunked=False):
     from pico8.lua import lexer
-    lx = lexer.Lexer(version=8)
+    lx = lexer.Lexer(version=ambient.VERSION[0])
     if chunked:
         lines = src.split(b'\n')
         chunks = [l + b'\n' for l in lines[:-1]] + ([lines[-1]] if lines[-1] else [])
